@@ -40,10 +40,34 @@ pub fn step(ctx: &Ctx, w: &World, ev: &mut Ev) {
                 _ => return,
             };
             let class = classify_open(ctx, w).map(|c| c.kind.s()).unwrap_or("unknown");
-            let pp = match pnl_pair_now(w, v, &actor) {
+            let mut pp = match pnl_pair_now(w, v, &actor) {
                 Some(x) => x,
                 None => return,
             };
+            // the 15-minute TWAP valuation: the harness's own, from its per-block record of the reserves (this step's
+            // trade included), when it can be computed and is more than a rounding away from the engine's figure
+            {
+                let recs = super::c18::vamm_records(ctx, v);
+                match twap_output_ref(&recs, p.dir, p.size.unsigned_abs(), 900, ctx.post.time, ctx.post.vamms[v].decimals.max(1)) {
+                    TwapRef::Value(tn) => {
+                        if tn.abs_diff(pp.twap_n) > 1 {
+                            ev.count("twap15_reference_differs_from_engine_figure");
+                            if let Some(tp) = pnl(p.dir, tn, p.notional) {
+                                pp.twap_n = tn;
+                                pp.twap_pnl = tp;
+                            }
+                        } else {
+                            ev.count("twap15_reference_equals_engine_figure");
+                        }
+                    }
+                    TwapRef::Unbounded => {
+                        ev.count("twap15_unbounded_spot_binding");
+                        pp.twap_n = pp.spot_n;
+                        pp.twap_pnl = pp.spot_pnl;
+                    }
+                    TwapRef::Unknown => {}
+                }
+            }
             let f = match owed(ctx.post, v, &actor, d) {
                 Some(x) => x,
                 None => return,
